@@ -518,6 +518,9 @@ func (f *FnCtx) runTop() {
 	fr.sweepGlobalsReadOnly(st)
 	fr.sweepCopyLocks(st)
 	fr.sweepNoStdout(st)
+	fr.sweepLoopClosures(st)
+	fr.sweepDeadParamStores(st)
+	fr.sweepNoWait(st)
 	ret := fr.run(st)
 	if ret == nil {
 		return // never returns normally
@@ -2739,6 +2742,188 @@ func (fr *frame) sweepNoStdout(st *bstate) {
 				if g, ok := (*op).(*ssa.Global); ok && g.Pkg != nil && g.Pkg.Pkg.Path() == "os" && g.Name() == "Stdout" {
 					f.oblige(st, fmt.Sprintf("%s#standard-output-left-to-the-stdio-transport", fnShortName(fr.fn)), "safety", f.sweepTags, "false",
 						"os.Stdout is used here; in a stdio server that is the protocol stream", posStr(f.e.fset, in.Pos()))
+				}
+			}
+		}
+	}
+}
+
+// sweep kind "loopclosure": a closure created inside a loop does not capture a variable that the loop itself
+// reassigns on every iteration.  Under this module's language version (go 1.20) the variables of a `for ... range`
+// clause are shared by all iterations, so every closure made in the loop would see the last element.  Structural:
+// the captured cell is allocated outside the loop and stored to inside it.
+func (fr *frame) sweepLoopClosures(st *bstate) {
+	f := fr.f
+	if !f.sweep["loopclosure"] || f.dry {
+		return
+	}
+	for h, body := range fr.loopBody {
+		for b := range body {
+			for _, in := range b.Instrs {
+				mc, ok := in.(*ssa.MakeClosure)
+				if !ok {
+					continue
+				}
+				for _, bind := range mc.Bindings {
+					cell, ok := bind.(*ssa.Alloc)
+					if !ok || body[cell.Block()] || cell.Referrers() == nil {
+						continue // a cell allocated per iteration (or not a cell)
+					}
+					written := false
+					for _, r := range *cell.Referrers() {
+						if s, ok := r.(*ssa.Store); ok && s.Addr == ssa.Value(cell) && body[s.Block()] {
+							written = true
+						}
+					}
+					if written {
+						name := cell.Comment
+						if name == "" {
+							name = "variable"
+						}
+						f.oblige(st, fmt.Sprintf("%s#closure-made-in-a-loop-captures-no-loop-variable:%s", fnShortName(fr.fn), name), "safety", f.sweepTags, "false",
+							fmt.Sprintf("the closure made in loop %d captures %s, which every iteration of the loop overwrites (one variable shared by all iterations)", fr.loopOrd[h], name), posStr(f.e.fset, mc.Pos()))
+					}
+				}
+			}
+		}
+	}
+}
+
+// sweep kind "deadparamstore": a by-value parameter is not assigned a value that nothing reads afterwards.  Such
+// an assignment is what remains of "reset the caller's variable" after the variable became a parameter (a
+// closure whose parameters shadow the variables it was meant to clear): the caller's variable keeps its value.
+// Structural: a definition of the parameter's name with no use of the name reachable behind it.
+func (fr *frame) sweepDeadParamStores(st *bstate) {
+	f := fr.f
+	if !f.sweep["deadparamstore"] || f.dry {
+		return
+	}
+	// the function itself and the closures it declares (those that are only called in place are never
+	// analysed on their own)
+	var fns []*ssa.Function
+	var collect func(fn *ssa.Function)
+	collect = func(fn *ssa.Function) {
+		fns = append(fns, fn)
+		for _, a := range fn.AnonFuncs {
+			collect(a)
+		}
+	}
+	collect(fr.fn)
+	for _, fn := range fns {
+		fr.deadParamStoresOf(fn, st)
+	}
+}
+
+func (fr *frame) deadParamStoresOf(fn *ssa.Function, st *bstate) {
+	f := fr.f
+	params := map[string]*ssa.Parameter{}
+	for _, p := range fn.Params {
+		if _, isPtr := p.Type().Underlying().(*types.Pointer); !isPtr {
+			params[p.Name()] = p
+		}
+	}
+	if len(params) == 0 {
+		return
+	}
+	type ref struct {
+		b   *ssa.BasicBlock
+		idx int
+		d   *ssa.DebugRef
+	}
+	byName := map[string][]ref{}
+	for _, b := range fn.Blocks {
+		for i, in := range b.Instrs {
+			if d, ok := in.(*ssa.DebugRef); ok {
+				if n := debugRefName(d); params[n] != nil {
+					byName[n] = append(byName[n], ref{b, i, d})
+				}
+			}
+		}
+	}
+	reach := func(from *ssa.BasicBlock) map[*ssa.BasicBlock]bool {
+		seen := map[*ssa.BasicBlock]bool{}
+		stack := append([]*ssa.BasicBlock{}, from.Succs...)
+		for len(stack) > 0 {
+			x := stack[len(stack)-1]
+			stack = stack[:len(stack)-1]
+			if seen[x] {
+				continue
+			}
+			seen[x] = true
+			stack = append(stack, x.Succs...)
+		}
+		return seen
+	}
+	for name, refs := range byName {
+		p := params[name]
+		for _, r := range refs {
+			if r.d.IsAddr || r.d.X == ssa.Value(p) || isConversionOf(r.d.X, p) {
+				continue // a use (or the address taken): not an assignment of a new value
+			}
+			if _, isPhi := r.d.X.(*ssa.Phi); isPhi {
+				continue // a use after a merge
+			}
+			// an assignment of a new value to the parameter: is the name used anywhere behind it?
+			later := false
+			rb := reach(r.b)
+			for _, o := range refs {
+				if o.d == r.d {
+					continue
+				}
+				if (o.b == r.b && o.idx > r.idx) || rb[o.b] {
+					later = true
+				}
+			}
+			// the new value itself may be used without the name (returned, passed on)
+			if rr := r.d.X.Referrers(); rr != nil {
+				for _, u := range *rr {
+					if _, isDbg := u.(*ssa.DebugRef); !isDbg {
+						if _, isConst := r.d.X.(*ssa.Const); !isConst {
+							later = true
+						}
+					}
+				}
+			}
+			if !later {
+				f.oblige(st, fmt.Sprintf("%s#no-assignment-to-a-parameter-that-nothing-reads:%s", fnShortName(fn), name), "safety", f.sweepTags, "false",
+					"the parameter "+name+" is assigned a value that is never read: the caller's variable of that name is not affected", posStr(f.e.fset, r.d.Pos()))
+			}
+		}
+	}
+}
+
+// sweep kind "nowait": the function (closures included) starts no timer and does not sleep: time.After, time.Sleep,
+// time.NewTimer, time.Tick, time.NewTicker and time.AfterFunc are not called.  For the attempt functions below the
+// retry executor: the executor alone decides how long to wait between attempts.  Structural.
+func (fr *frame) sweepNoWait(st *bstate) {
+	f := fr.f
+	if !f.sweep["nowait"] || f.dry {
+		return
+	}
+	var fns []*ssa.Function
+	var collect func(fn *ssa.Function)
+	collect = func(fn *ssa.Function) {
+		fns = append(fns, fn)
+		for _, a := range fn.AnonFuncs {
+			collect(a)
+		}
+	}
+	collect(fr.fn)
+	for _, fn := range fns {
+		for _, b := range fn.Blocks {
+			for _, in := range b.Instrs {
+				c, ok := in.(ssa.CallInstruction)
+				if !ok {
+					continue
+				}
+				callee := c.Common().StaticCallee()
+				if callee == nil {
+					continue
+				}
+				switch callee.String() {
+				case "time.After", "time.Sleep", "time.NewTimer", "time.Tick", "time.NewTicker", "time.AfterFunc":
+					f.oblige(st, fmt.Sprintf("%s#an-attempt-does-not-wait-on-its-own:%s", fnShortName(fr.fn), callee.Name()), "safety", f.sweepTags, "false",
+						"the attempt function calls "+callee.String()+": waits between attempts belong to the retry executor", posStr(f.e.fset, in.Pos()))
 				}
 			}
 		}
